@@ -477,7 +477,9 @@ impl CertificateParams {
 			let bit_string = self.key_usages.iter().fold(0u16, |bit_string, key_usage| {
 				bit_string | key_usage.to_u16()
 			});
-			writer.write_bitvec_bytes(&bit_string.to_be_bytes(), KEY_USAGE_BITS);
+			// DER: a named bit list is encoded without trailing zero bits
+			let bits = KEY_USAGE_BITS.min(16 - bit_string.trailing_zeros() as usize);
+			writer.write_bitvec_bytes(&bit_string.to_be_bytes()[..bits.div_ceil(8)], bits);
 		});
 	}
 
